@@ -137,6 +137,8 @@ def run(S):
     from . import C16_route
     C16_route.add_entry_step(S, D)
     C16_route.liquidity_bookkeeping(S, D)
+    C16_route.derived_limits(S, D)
+    C16_route.merge_key(S, D)
 
 
 def path_fees(S, D):
